@@ -401,8 +401,8 @@ def into_data(val: Convertible, ty: t.Optional[IntoConverter] = None, *,
     Convert `val` of type `ty` into a data interchange format.
     """
     if ty is None or ty is t.Any:
-        if isinstance(val, _ScalarType) and custom is None:
-            # we can bypass the converter for scalar types
+        if isinstance(val, _ScalarType) and not isinstance(val, enum.Enum) and custom is None:
+            # we can bypass the converter for scalar types (but a `class E(str, Enum)` member is serialised as an enum)
             return val
         ty = type(val)
 
